@@ -1672,8 +1672,9 @@ impl AnnotationStore {
                         }
                     }
                     (
-                        Selector::AnnotationSelector(annotation, Some(_)),
-                        Selector::AnnotationSelector(annotation2, Some(_)),
+                        //(only offsets that were given as begin-aligned:end-aligned, like Offset::whole(), are merged: that is the alignment the expansion of the range restores)
+                        Selector::AnnotationSelector(annotation, Some((_, _, OffsetMode::BeginEnd))),
+                        Selector::AnnotationSelector(annotation2, Some((_, _, OffsetMode::BeginEnd))),
                     ) => {
                         if annotation2.as_usize() == annotation.as_usize() + 1 {
                             //we can only merge annotations that reference the entire underlying annotation's text and not a subpart of it
@@ -1701,7 +1702,7 @@ impl AnnotationStore {
                             end,
                             with_text: true,
                         },
-                        Selector::AnnotationSelector(annotation, Some(_)),
+                        Selector::AnnotationSelector(annotation, Some((_, _, OffsetMode::BeginEnd))),
                     ) => {
                         if annotation.as_usize() == end.as_usize() + 1 {
                             //we can only merge annotations that reference the entire underlying annotation's text and not a subpart of it
